@@ -120,7 +120,8 @@ CHECKS["C05"] = dict(
    text="Machine-checked invariant proof for EVERY history of burst arrivals and idle polls with a monotone clock: two consecutive reports "
         "with equal text are at least MAX_HISTORY_DURATION (5652 symbols, 10.86 s) apart (duplicate suppression inside the window), from "
         "the initial state and from any state satisfying the invariant; scenario proofs that the same header is reported again once the "
-        "window has passed, that a trailer is reported exactly once, and that a second, different transmission following a complete one is "
+        "window has passed; lifted to the whole discrete receiver and all audio (the receiver drives its assembler with a history whose clock, "
+        "the squelch's symbol counter, never runs backwards, and the assembler state it holds is the assembler run over that history); that a trailer is reported exactly once, and that a second, different transmission following a complete one is "
         "reported once and after it. 'In order, including transmissions one second apart' is refuted on "
         "the faithful model (F1 witness lemma, replayed on the implementation; also F8) and listed as known findings; order for "
         "transmissions further apart is checked by the scenario oracle on histories, not by a closed theorem.",
@@ -131,7 +132,8 @@ CHECKS["C08"] = dict(
    text="Machine-checked proof in symbol time: an EndOfMessage established by a burst is returned by the assemble call that delivers it "
         "(unless a StartOfMessage is held: F2); for EVERY history the pending slot never keeps an EndOfMessage between calls and whatever "
         "it holds is due at most 682 symbols after the last burst, and the first idle poll at or after that instant returns it (never held "
-        "indefinitely once bursts stop); idle polls report the held result exactly once at the first poll past its deadline. Partial: the "
+        "indefinitely once bursts stop); idle polls report the held result exactly once at the first poll past its deadline; the hold bound "
+        "holds in every state the whole discrete receiver can reach, on any item stream. Partial: the "
         "sample-time bound (about 1.5 s at every rate = symbol bound x tick period + burst-termination latency) is DSP behaviour, measured "
         "on every audio case and bounded by the oracle, not proved. F3 (repeats extend the hold) is a refuted-witness lemma / known finding.",
    note=ASM_NOTE,
